@@ -21,10 +21,10 @@ import (
 )
 
 type fileRule struct {
-	Swap    map[string]string // import path -> replacement path
-	GoTasks bool              // rewrite `go` statements into kernel tasks
-	Selects bool              // rewrite multi-case selects
-	MapRanges []string        // range expressions (source text) that are maps whose iteration order must be canonical
+	Swap      map[string]string // import path -> replacement path
+	GoTasks   bool              // rewrite `go` statements into kernel tasks
+	Selects   bool              // rewrite multi-case selects
+	MapRanges []string          // range expressions (source text) that are maps whose iteration order must be canonical
 }
 
 type profile struct {
@@ -273,7 +273,9 @@ func addImport(f *ast.File, name, path string) {
 	f.Imports = append(f.Imports, spec)
 }
 
-func sel(pkg, name string) ast.Expr { return &ast.SelectorExpr{X: ast.NewIdent(pkg), Sel: ast.NewIdent(name)} }
+func sel(pkg, name string) ast.Expr {
+	return &ast.SelectorExpr{X: ast.NewIdent(pkg), Sel: ast.NewIdent(name)}
+}
 
 func call(fun ast.Expr, args ...ast.Expr) *ast.CallExpr { return &ast.CallExpr{Fun: fun, Args: args} }
 
@@ -400,6 +402,12 @@ func rewriteSelect(s *ast.SelectStmt) (ast.Stmt, bool, error) {
 	if def != nil {
 		nb = "true"
 		clauses = append(clauses, &ast.CaseClause{List: nil, Body: def.Body})
+	} else {
+		// a blocking select always takes one of its cases; the default keeps the switch a terminating statement
+		// where the select was one
+		clauses = append(clauses, &ast.CaseClause{List: nil, Body: []ast.Stmt{
+			&ast.ExprStmt{X: call(ast.NewIdent("panic"), &ast.BasicLit{Kind: token.STRING, Value: strconv.Quote("simrt: unreachable select outcome")})},
+		}})
 	}
 	init := &ast.AssignStmt{
 		Lhs: []ast.Expr{sv}, Tok: token.DEFINE,
